@@ -47,6 +47,7 @@ public:                      // was private - needed for derived class SBMLtoXML
     xmlTextWriterPtr writer; /**< The underlying xmlTextWriter */
     Document* doc;           /**< The document to write */
     std::map<int, int> selfLoops;
+    int branchpointOffset{0}; /**< id of the first branchpoint of the current template */
 
     void startDocument();
     void endDocument();
